@@ -204,6 +204,7 @@ do_ip (long *v, int nv)
 /* kind 5: whole address.
  * [5, optbits, n, bytes.., at, c12, 8 x (exp, erc, eflag, mrc, mflag)]  (tld off x 4 modes, tld on x 4 modes) */
 #define NOPIN 99
+#define ISDIGIT_C(ch) ((ch) >= '0' && (ch) <= '9')
 #define ALLOW_ALL 0x7fc
 
 static void
@@ -298,6 +299,22 @@ do_email (long *v, int nv)
                 if (*D != '[') alt = m < 3 ? is_ascii_domain (D, end) : utf8dom (&widn, D, end, tld);
                 else alt = rc;     /* literal: no public composite validator to compare with */
                 if (alt >= 0) alt = 1000;
+            }
+            else if (*D == '[' && end[-1] == ']' && end - D >= 3) {
+                /* literal: the public validators decide the two spellings the properties require (plain dotted quad, exact
+                 * "IPv6:" tag); the untagged IPv6 spelling is only tolerated and is left alone */
+                const char *c = D + 1, *ce = end - 1;
+                int colon = memchr (c, ':', ce - c) != NULL;
+                if (!colon && ISDIGIT_C (*c)) want = is_ipv4 (c, ce) ? 0 : -EEAV_IPADDR_INVALID;
+                else if (colon && ISDIGIT_C (*c) && ce - c < 200) {
+                    /* untagged spelling starting with a digit: whatever is decided must be what the public is_ipaddr says of the
+                     * bracket content (it is handed the content NUL-terminated here) */
+                    char tmp[256];
+                    memcpy (tmp, c, ce - c); tmp[ce - c] = 0;
+                    want = is_ipaddr (tmp, tmp + (ce - c)) ? 0 : -EEAV_IPADDR_INVALID;
+                }
+                else if (ce - c > 5 && memcmp (c, "IPv6:", 5) == 0) want = is_ipv6 (c + 5, ce) ? 0 : -EEAV_IPADDR_INVALID;
+                if (want == -EEAV_IPADDR_INVALID && rc < 0) want = rc;      /* which ip-addr code is reported is not pinned */
             }
             else if (*D != '[') {
                 if (m < 3) {
@@ -620,6 +637,9 @@ do_history (long *v, int nv)
         if (adapter_ctx_live < 0 || adapter_ctx_live > 1)      /* one eav_t owns at most one backend context */
             hist_viol ("backend contexts owned by one object", v, nsteps, k, 1, adapter_ctx_live, 0);
 #endif
+        /* the public settings belong to the caller: no call may change them behind his back */
+        if (live && op >= 5 && op <= 7 && ((int) ev->tld_check != (int) s[9] || ev->allow_tld != (int) s[10]))
+            hist_viol ("a call changed the caller's tld_check / allow_tld", v, nsteps, k, s[10], ev->allow_tld, ev->tld_check);
         if (op == 5 && s[3] != 0) snprintf (lastmsg, sizeof lastmsg, "%s", "");
         if (op == 1) lastmsg[0] = 0;
     }
@@ -670,6 +690,23 @@ do_robust (long *v, int nv, int with_idn)
             eav_result_t *r = emails[m].f (p, n, tld);
             sink += r->rc;
             eav_result_free (r);
+        }
+        /* the object on the same string: a result record must exist afterwards and agree with the per-mode function */
+        for (int m = 0; m < (with_idn ? 4 : 3); m++) {
+            eav_t ev;
+            eav_result_t *r = emails[m].f (p, n, true);
+            int rc = r->rc, ret;
+            eav_result_free (r);
+            eav_init (&ev);
+            ev.rfc = (EAV_RFC) m;
+            ev.allow_tld = ALLOW_ALL;
+            if (eav_setup (&ev) != 0) die ("setup");
+            ret = eav_is_email (&ev, "a@x.com", 7);            /* an accepted address first: nothing of it may survive */
+            ret = eav_is_email (&ev, p, n);
+            if (ev.result == NULL || ev.result->rc != rc || ret != (rc >= 0) || ev.errcode != (rc < 0 ? -rc : 0))
+                viol ("robust", "eav_is_email on a long input disagrees with the per-mode function or keeps a stale result", emails[m].mode, 0,
+                      b, n > 300 ? 300 : n, rc, ev.result ? ev.result->rc : 1000, ev.errcode);
+            eav_free (&ev);
         }
         unplace ();
         cnt.calls += 20;
